@@ -11,7 +11,7 @@ var RuleNames = []string{"optional", "nullable", "const", "min", "max", "exclusi
 	"minLength", "maxLength", "regex", "minItems", "maxItems", "type", "enum", "or", "allOf", "additionalProperties"}
 
 // KindExamples are the annotated example nodes (fresh copies).
-var KindNames = []string{"empty object", "object", "empty array", "array", "string", "integer", "float", "boolean", "null", "reference"}
+var KindNames = []string{"empty object", "object", "empty array", "array", "string", "integer", "float", "boolean", "null", "negative float", "reference"}
 
 func KindExample(i int) *model.Node {
 	switch i {
@@ -33,6 +33,8 @@ func KindExample(i int) *model.Node {
 		return model.Bool(true)
 	case 8:
 		return model.Null()
+	case 9:
+		return model.Flt("-1.3")
 	}
 	return model.Ref("@i")
 }
@@ -72,11 +74,18 @@ func RuleVariants(name string, n *model.Node) []*model.Rule {
 	case "optional", "nullable", "const", "exclusiveMinimum", "exclusiveMaximum":
 		return []*model.Rule{model.RBool(name, true), model.RBool(name, false)}
 	case "min":
+		if n.Lit == "-1.3" {
+			// negative bounds which differ in the fraction only, in and out of order / range
+			return []*model.Rule{model.RNum("min", "-1.5"), model.RNum("min", "-1.3"), model.RNum("min", "-1.25")}
+		}
 		if num {
 			return []*model.Rule{model.RNum("min", "1"), model.RNum("min", n.Lit), model.RNum("min", "9")}
 		}
 		return []*model.Rule{model.RNum("min", "1")}
 	case "max":
+		if n.Lit == "-1.3" {
+			return []*model.Rule{model.RNum("max", "-1.25"), model.RNum("max", "-1.3"), model.RNum("max", "-1.5")}
+		}
 		if num {
 			return []*model.Rule{model.RNum("max", "9"), model.RNum("max", n.Lit)}
 		}
@@ -122,9 +131,15 @@ func RuleVariants(name string, n *model.Node) []*model.Rule {
 				model.ROr(model.OrName("@o"), model.OrSet(model.RStr("type", "array"))),
 			}
 		}
+		lit := n.Lit
+		if !n.IsScalar() {
+			lit = "1"
+		}
 		return []*model.Rule{
 			model.ROr(model.OrName("string"), model.OrName("integer"), model.OrName("float"), model.OrName("boolean"), model.OrName("null")),
 			model.ROr(model.OrName("@s"), model.OrName("@i"), model.OrName("@f"), model.OrName("@b"), model.OrName("@n")),
+			// a rule-set holding an enum next to rule-sets of plain types
+			model.ROr(model.OrSet(model.REnum(lit, `"zz"`)), model.OrSet(model.RStr("type", "string")), model.OrSet(model.RStr("type", "null"))),
 		}
 	case "allOf":
 		return []*model.Rule{model.RAllOf("@o")}
